@@ -37,9 +37,10 @@ type fn struct {
 }
 
 var (
-	fset    = token.NewFileSet()
-	funcs   = map[string]*fn{}
-	guardRe *regexp.Regexp
+	fset       = token.NewFileSet()
+	funcs      = map[string]*fn{}
+	guardRe    *regexp.Regexp
+	varGuardRe *regexp.Regexp // boolean variables whose negation guards a terminating branch
 )
 
 func exprStr(e ast.Expr) string {
@@ -143,6 +144,8 @@ func (t *tr) calls(e ast.Node) *node {
 			// callee sub-expressions (x.f().g()) first, then args, then the call
 			if sel, ok := x.Fun.(*ast.SelectorExpr); ok {
 				walk(sel.X)
+			} else if _, isLit := x.Fun.(*ast.FuncLit); isLit {
+				// body is emitted once by t.call
 			} else if _, ok := x.Fun.(*ast.Ident); !ok {
 				walk(x.Fun)
 			}
@@ -410,6 +413,25 @@ func (t *tr) stmt(s ast.Stmt) *node {
 				return seq(pre, &node{k: "GuardIf", s: g, c: hdr + "if " + shapeOf(x.Cond, shape), a: fail})
 			}
 		}
+		if varGuardRe != nil && x.Init == nil && x.Else == nil && terminates(x.Body.List) {
+			if u, ok := x.Cond.(*ast.UnaryExpr); ok && u.Op == token.NOT {
+				if id, ok := u.X.(*ast.Ident); ok && varGuardRe.MatchString(id.Name) {
+					return &node{k: "GuardIf", s: id.Name, c: "if !var", a: t.block(x.Body.List)}
+				}
+			}
+		}
+		if g != "" && x.Else != nil && x.Init != nil && exprStr(x.Cond) == "err != nil" && len(x.Body.List) == 1 {
+			if in, ok := x.Body.List[0].(*ast.IfStmt); ok && in.Init == nil && in.Else == nil &&
+				strings.HasPrefix(exprStr(in.Cond), "!errors.Is(err, ") && terminates(in.Body.List) {
+				exc := strings.TrimSuffix(strings.TrimPrefix(exprStr(in.Cond), "!errors.Is(err, "), ")")
+				pre := t.callsExceptGuard(x.Init)
+				return seq(pre,
+					&node{k: "GuardIf", s: g, c: "init; if err != nil { if " + exprStr(in.Cond) + " } else", a: t.block(in.Body.List)},
+					&node{k: "Branch",
+						a: &node{k: "GuardIf", s: g + ":" + exc, c: "exemption", a: &node{k: "Return"}},
+						b: t.stmt(x.Else)})
+			}
+		}
 		var els *node = skip()
 		if x.Else != nil {
 			els = t.stmt(x.Else)
@@ -490,12 +512,16 @@ func recvInfo(d *ast.FuncDecl) (id, typ string) {
 
 func main() {
 	var dirs, ifaces multi
-	var out, guards string
+	var out, guards, varguards string
 	flag.Var(&dirs, "dir", "package directory (repeatable); optional `alias=` prefix")
 	flag.Var(&ifaces, "iface", "file.go:InterfaceName whose method names are emitted (repeatable)")
 	flag.StringVar(&out, "out", "", "output .v file")
 	flag.StringVar(&guards, "guards", "", "regexp matching guard callee expressions")
+	flag.StringVar(&varguards, "varguards", "", "regexp matching boolean variables used as `if !v { return }` guards")
 	flag.Parse()
+	if varguards != "" {
+		varGuardRe = regexp.MustCompile("^(" + varguards + ")$")
+	}
 	if guards != "" {
 		guardRe = regexp.MustCompile(guards)
 	}
